@@ -516,9 +516,11 @@ def training_valid(sem):
     return sem in ("zef18", "@user")
 
 
-def apply_run_log(ctx, log, state, tab, D, resolve):
-    """Update the expected profile ``state`` from the prompts/answers of one setup run.
-    Returns the set of keys whose stored value is compared with tolerance."""
+def apply_run_log(ctx, log, state, D):
+    """Update the expected profile ``state`` from the logged prompts/answers of one setup run:
+    consecutive entries of one prompt are re-prompts (all but the last answer were rejected).
+    Preprocessing and range-type answers are entered symbolically and resolved by
+    compare_setup_state.  Returns counts and the list of prompts seen."""
     groups = []
     for pid, typed, sem in log:
         if groups and groups[-1][0] == pid:
@@ -527,7 +529,6 @@ def apply_run_log(ctx, log, state, tab, D, resolve):
             groups.append([pid, [(typed, sem)]])
     seen = [g[0] for g in groups]
     info = {"answered": 0, "reprompts": 0, "interval": ["skipped", "skipped"]}
-    # the parameters asked for must be those of the selected model, in order
     for pid, answers in groups:
         *rejected, (typed, sem) = answers
         kind = pid.split(":")[0]
@@ -663,7 +664,7 @@ def run_setup_script(case, ctx, d):
                      f"{[(p, t) for p, t, _ in user.log if t]}")
             return None     # listed known finding: nothing more to compare for this script
         # the model that was selected decides which parameters had to be asked for
-        info = apply_run_log(ctx, user.log, state, tab, D, resolve)
+        info = apply_run_log(ctx, user.log, state, D)
         asked = [p[6:] for p in info["prompts"] if p.startswith("value:")]
         names = [t[0] for t in tab[state.get("model_key", PINNED_DEFAULTS["model_key"])]]
         ctx.check(asked == names, "setup-asks-wrong-parameters", {},
@@ -1022,7 +1023,8 @@ def strategies():
                                         ["@emptydir", "zef18"], ["nope", "@emptydir", ""]])
         return st.fixed_dictionaries({
             "preprocessing": pre, "sep": st.sampled_from([",", ",", ", "]),
-            "model": st.one_of(st.none(), st.sampled_from(models)),
+            "model": st.one_of(st.none(), st.sampled_from(models), st.sampled_from(models)) if friendly
+            else st.one_of(st.none(), st.sampled_from(models)),
             "params": params, "range_type": rtype, "left": left, "right": right, "weight": weight,
             "training": training, "regressor": st.one_of(st.none(), st.sampled_from(regs))})
 
